@@ -996,7 +996,7 @@ pub(crate) fn add_generator_to_array<W, R, T>(
                 ret.push(value);
                 rt.can_afford(&ret)?;
             }
-            Ok(manage_native!(XSequence::Array(ret), rt))
+            Ok(manage_native!(XSequence::array(ret), rt))
         }),
     )
 }
